@@ -44,6 +44,7 @@ type Scenario struct {
 	SilentNode   int      `json:"silent_node,omitempty"`    // party that goes silent (crash) ...
 	SilentAfter  int      `json:"silent_after,omitempty"`   // ... after this many scheduler steps
 	Concurrency  int      `json:"concurrency,omitempty"`    // > 0: tss.Parameters.SetConcurrency of every party
+	DeclaredOldN int      `json:"declared_old_n,omitempty"` // resharing: old party count declared to the parameters (default: size of the old context)
 	Schedule []pump.Step `json:"schedule,omitempty"` // recorded schedule (for replay)
 }
 
@@ -111,7 +112,7 @@ func copyEc(k eckg.LocalPartySaveData) eckg.LocalPartySaveData {
 
 // BuildConfig turns a scenario into a pump configuration (key material from the caches).
 func BuildConfig(sc Scenario) (cfg pump.Config, err error) {
-	cfg = pump.Config{Proto: sc.Proto, N: sc.N, T: sc.T, NewN: sc.NewN, NewT: sc.NewT, NoProofs: sc.NoProofs, Seed: sc.Seed, FullBytesLen: sc.FullBytesLen, Concurrency: sc.Concurrency}
+	cfg = pump.Config{Proto: sc.Proto, N: sc.N, T: sc.T, NewN: sc.NewN, NewT: sc.NewT, NoProofs: sc.NoProofs, Seed: sc.Seed, FullBytesLen: sc.FullBytesLen, Concurrency: sc.Concurrency, DeclaredOldN: sc.DeclaredOldN}
 	for _, k := range sc.PartyKeys {
 		v, ok := new(big.Int).SetString(k, 10)
 		if !ok {
